@@ -106,6 +106,7 @@ type Exec struct {
 	discharged   int
 	symBits      int
 	choices      int
+	decided      map[*Term]bool // conditions already decided on this path
 	locks        map[*Value]bool // mutexes currently held (lockset)
 	unlockedCache int
 	curInstr     ssa.Instruction
@@ -140,7 +141,7 @@ func (e *Exec) cut(msg string) {
 func (e *Exec) gopanic(msg string) { panic(goPanic{msg: msg}) }
 
 func (e *Exec) freshVar(w uint8, hint string) *Term {
-	t := &Term{Op: OVar, W: w, Name: fmt.Sprintf("v%d_%s", e.nvars, hint)}
+	t := mk(Term{Op: OVar, W: w, Name: fmt.Sprintf("v%d_%s", e.nvars, hint)})
 	e.nvars++
 	e.inputs = append(e.inputs, t)
 	if hint != "c" {
@@ -166,12 +167,28 @@ func (e *Exec) decide(c *Term) bool {
 		}
 		e.pos++
 		e.trace = append(e.trace, d)
+		if c.Op == ONot {
+			e.decided[c.A] = !d.b
+		} else {
+			e.decided[c] = d.b
+		}
 		if d.b {
 			e.solver.Assert(c)
 		} else {
 			e.solver.Assert(Not(c))
 		}
 		return d.b
+	}
+	key, neg := c, false
+	if c.Op == ONot {
+		key, neg = c.A, true
+	}
+	if v, ok := e.decided[key]; ok {
+		// the same condition was decided earlier on this path: implied, no query
+		take := v != neg
+		e.pos++
+		e.trace = append(e.trace, Dec{k: 'b', b: take})
+		return take
 	}
 	e.pos++
 	take := c.Eval(e.model) == 1
@@ -192,6 +209,7 @@ func (e *Exec) decide(c *Term) bool {
 		}
 	}
 	e.trace = append(e.trace, Dec{k: 'b', b: take})
+	e.decided[key] = take != neg
 	if take {
 		e.solver.Assert(c)
 	} else {
